@@ -89,9 +89,11 @@ class FileHandler(logging.FileHandler):
         try:
             if self.stream is not None:
                 self.stream.close()
-                if self.delay:
-                    self.stream = None
-                else:
+                # Forget the closed stream before opening the new one: if
+                # the file cannot be opened right now, a later emit() or
+                # reopen() opens it, and close() has nothing to flush.
+                self.stream = None
+                if not self.delay:
                     self.stream = self._open()
         finally:
             self.release()
